@@ -1,9 +1,9 @@
 #!/bin/sh
-# tools/sweep.sh [first_seed] [last_seed] [tier] : every claimed check on a range of seeds; prints only problems
+# tools/sweep.sh [first_seed] [last_seed] [tier] : every claimed check (or $PROPS) on a range of seeds; prints only problems
 cd /verif
 a=${1:-0}; b=${2:-5}; tier=${3:-quick}
 for s in $(seq $a $b); do
-  for p in $(cat claimed.txt); do
+  for p in ${PROPS:-$(cat claimed.txt)}; do
     out=$(VERIF_SEED=$s ./check $p --tier $tier --no-evidence --jobs ${JOBS:-8} 2>&1); rc=$?
     if [ $rc -ne 0 ]; then echo "seed=$s $p rc=$rc"; echo "$out" | grep -E "VIOLATION|INCONCLUSIVE|violated clause|problem" | head -5 | cut -c1-300; fi
   done
